@@ -1,8 +1,15 @@
-import GceTcb.Base.Line
-/- Driver handler for stream `c14` (stub: replaced when the property's model lands). -/
+import GceTcb.Drive.EndorseIO
+/- Driver handler for stream `c14` (RetrySubmit against a scripted backend). -/
 namespace GceTcb.Drive.C14
-open GceTcb
+open GceTcb GceTcb.Manifest GceTcb.Commit GceTcb.Drive.IO
 
-def handle (_f : Fields) : String := "unimplemented"
+def handle (f : Fields) : String :=
+  match f.get "op" with
+  | "retry" =>
+    let c := parseCfg f
+    let e : Entry := ⟨basename c.cand, f.get "dg", f.get "t"⟩
+    let r := retrySubmit c e (f.int "budget") (parseScript (f.get "script"))
+    s!"res={showRes r.2} log={showLog r.1}"
+  | _ => "bad-op"
 
 end GceTcb.Drive.C14
